@@ -160,7 +160,7 @@ def _(c):
 
 
 @contract("helpers.neighbors", "vert:Vertex, direction_sensitive:int=0, unknown_handling:int=2, filterfunc:cb:ff2=None",
-          props=("C04", "C05", "C12", "C13"), shards=6)
+          props=("C04", "C05", "C11", "C12", "C13"), shards=6)
 def _(c):
     S, x, d, u, f = c.S, c.vert, c.direction_sensitive, c.unknown_handling, c.filterfunc
     ct = c.ct
@@ -248,7 +248,7 @@ def fl_defs(S, ct, prefix, a, b, ds, u, f, whole=None, elem=None, suffix=None):
 
 @contract("helpers.find_links",
           "v1:Vertex, v2:Vertex?, direction_sensitive:bool=True, unknown_handling:int=2, filterfunc:cb:ff1=None",
-          props=("C09", "C03", "C12", "C13"), shards=3)
+          props=("C09", "C03", "C11", "C12", "C13"), shards=3)
 def _(c):
     S, a, b, ds, u, f = c.S, c.v1, c.v2, c.direction_sensitive, c.unknown_handling, c.filterfunc
     ct = c.ct
